@@ -1,3 +1,5 @@
 """Executable + SMT-translatable spec functions, written from the standards (DESIGN.md 2.5).
-They are restricted Python: PYVC executes them symbolically through the same translator as the code."""
-from . import der, pad   # noqa
+They are restricted Python: PYVC executes them symbolically through the same translator as the code.
+
+This file deliberately imports nothing: PYVC resolves `spec.<module>` by file, and native code imports
+submodules explicitly (`from spec import curves`).  Do not add imports here (several authors add spec modules concurrently)."""
